@@ -1,6 +1,7 @@
 package main
 
 import (
+	"path/filepath"
 	"fmt"
 	"os"
 	"strings"
@@ -475,6 +476,16 @@ func runC02(res *lib.Result, tier string, seed int64, args []string) error {
 			rel := fmt.Sprintf("doc%d.lua", o.uri)
 			switch o.kind {
 			case 'o':
+				// what is on disk is not what the client holds (stale content, a BOM, other line ends): the
+				// client's text is authoritative from didOpen on, also at didSave
+				switch r.Intn(4) {
+				case 0:
+					os.WriteFile(filepath.Join(dir, rel), []byte("\xEF\xBB\xBF"+o.text), 0o644)
+				case 1:
+					os.WriteFile(filepath.Join(dir, rel), []byte("-- stale on disk\r\n"), 0o644)
+				case 2:
+					os.Remove(filepath.Join(dir, rel))
+				}
 				err = sess.DidOpen(rel, o.text)
 			case 's':
 				err = sess.DidSave(rel, o.text)
